@@ -101,8 +101,9 @@ class Scenario:
     """setup() builds fresh real objects and returns a state dict; op(state) is the operation that is
     faulted; complete(state) lists the method sets that count as "the complete set" afterwards."""
 
-    def __init__(self, name, mspecs, sigma, pre, op, after_sets, annotate=annot.annotate, carrier=None, post=None):
+    def __init__(self, name, mspecs, sigma, pre, op, after_sets, annotate=annot.annotate, carrier=None, post=None, entries=(0, 1)):
         self.name = name
+        self.entries = entries  # which entry points the probes go through (0 = the dispatch function, 1 = Ovld.__call__)
         self.post = post  # an operation carried out (without fault) after the interrupted one and before the probes
         self.mspecs = mspecs
         self.sigma = sigma
@@ -179,6 +180,9 @@ def scenarios(tier):
         Scenario("rebuild/register-changes-entry-point", BASE, SIGMA2, _warm([k1, 5]), _register(7), [ids(BASE), ids(BASE) + (7,)]),
         # the interrupted operation is followed by a registration: the function must then serve the new method set
         Scenario("first-call-interrupted/then-register", BASE, SIGMA2, _noop, _first_call("dispatch", k1), [ids(BASE) + (7,)], post=_register(7)),
+        # an interrupted change of a function in use, followed by another (uninterrupted) change
+        Scenario("register-interrupted/then-register", BASE, SIGMA[:4], _warm([k1, 5]), _register(8),
+                 [ids(BASE) + (9,), ids(BASE) + (8, 9)], post=_register(9), entries=(0,)),
         LinkedScenario("rebuild/linked-children-of-unbuilt-parent", BASE, SIGMA[:3], _noop, _register_on_parent(8), [ids(BASE), ids(BASE) + (8,)]),
     ]
     if tier != "quick":
@@ -286,7 +290,7 @@ def explore_scenario(sc, shard, nshards, acc):
     for k in range(1 + shard, N + 1, nshards):
         where = None
         for ci, (vn, v) in enumerate(sc.sigma):
-            for ei in (0, 1):
+            for ei in sc.entries:
                 st = sc.setup()
                 tr, out = traced(lambda: sc.op(st), fire_at=k)
                 if not (out[0] == "exc" and isinstance(out[1], Interrupt)):
